@@ -195,6 +195,32 @@ Phase 4 (C07) — spec option `dyn_sizes`: dynamic-size Eigen objects WITH their
   (`{r0} {c0}` = rows / columns of argument 0); any other method makes the function untranslatable;
 * `member_()` in a constructor's initialiser list (value-initialisation of a scalar) is zero.
 
+Phase 5 (C04) — fixed-size / dynamic-size mixtures and vectors of points as data members
+* `v[i].field` (read) and `const T & x = v[i].field;` (bound by value) with `v` a std::vector of a plain struct of scalars;
+* `a.transpose()` of a fixed-size column vector is the 1 x n row vector (`col * row.transpose()` = the outer product, one term per
+  coefficient); `A += B * C;` / `A -= B * C;` on fixed-size objects add / subtract the evaluated product coefficient by coefficient
+  (`A *= B` with a matrix stays untranslatable); `Eigen::Array<T, r, c>::Zero() / Ones()`;
+* compound assignment to a writable VIEW of a fixed-size object (`M.block(i, j, R, C) += expr;`, `v.head(n) *= s;`, `M.block(…) /= s;`
+  — `*=` / `/=` only with a scalar), `head(n)` / `tail(n)` with a constant run-time argument as views, an n x 1 block assigned from /
+  combined with a vector;
+* with `dyn_sizes`: `Matrix<T, -1, -1>(fixed-size expression)` (e.g. the argument conversion of `JacobiSVD<MatrixXd> svd(cov.block(0, 0, d, d),
+  flags)`) is the aggregate with literal sizes and the coefficient function `fun ρ γ => if ρ = 0 ∧ γ = 0 then x_0_0 else … else 0` (row-major
+  chain over the known coefficients, zero elsewhere); `X.determinant()` of a dynamic matrix is the uninterpreted function `determinant` of
+  its leaves (cols, coefficients, rows: Eigen computes it through a partially pivoted LU); a dynamic-size value assigned to a fixed-size
+  block / view (`H.block(0, 0, d, d) = v * u.transpose();`) is read at the target's indices — the sizes of the value are NOT compared with
+  the target's (Eigen asserts this in debug builds only: a trusted reading);
+* a data member / getter result that is a `std::vector` of small fixed-size Eigen vectors (or of a plain struct) is ONE list leaf of its
+  object (`x.get()` with `const V & get() const { return points_; }` is that leaf, passed whole to a translated callee); on such a vector
+  `reserve(n)` changes nothing observable, `capacity()` is the value of a HIDDEN integer leaf `<vector>_capacity` of the object (not a
+  function of the contents; a read after `reserve` / `resize` in the same body is untranslatable), `resize(n)` is `vecResize v n fill`
+  with `fill` the uninterpreted parameter `<vector>_resize_fill` (a default-constructed element: indeterminate for plain Eigen vectors —
+  the bridge quantifies over it; for a class with a default constructor this over-approximates); `v[i].array() = expr;` is `v[i] = expr;`.
+* (C12) spec key `transform_oracles` (list; only `'rotation'`): `T.rotation()` of an `Eigen::Transform` (Eigen: the rotation of the polar
+  decomposition of the linear part, by an SVD) is an ORACLE — coefficient (i, j) is the uninterpreted function `Transform_rotation_i_j` of the
+  nine coefficients of `T.linear()` in row-major order (every call on the same value is the same term); a C array of small fixed-size Eigen
+  matrices (`const Eigen::Matrix3d a[3] = {A, B, C};`, typedef names `Matrix2…4 d|f` / `Vector2…4 d|f`) is an aggregate whose element `k` is
+  the path component `(k,)`, `a[k]` with a constant `k` (also the `k` of an unrolled loop) and `const M & x = a[k];` address it.
+
 Anything else (function-local `static`, writes to globals, unknown calls, unsupported statements) makes the function
 UNTRANSLATABLE: the generated file then holds a comment with the reason and no definition of that name, so that the
 bridge theorem about it no longer compiles.
@@ -202,7 +228,7 @@ bridge theorem about it no longer compiles.
 Spec-wide keys, besides `id sources headers extra filter extra_filters macros imports opens functions uninterpreted externs strip_ns`:
 `vector_encoding` ('checked' | 'plain'), `opaque_elements`, `incr_encoding` ('inline' | 'let'), `unsigned_wrap`,
 `fold_constant_conditions`, `unroll_constant_loops`, `abstract_classes` (list of class names), `whole_containers`, `range_for`,
-`oracles`, `source_getters` (phase 3), `dyn_sizes`, `oracle_classes` (phase 4). The defaults give the first-listed / option-less reading. A fixed-size `Eigen::Array<T, r, c>` has the
+`oracles`, `source_getters` (phase 3), `dyn_sizes`, `oracle_classes` (phase 4), `transform_oracles` (phase 5). The defaults give the first-listed / option-less reading. A fixed-size `Eigen::Array<T, r, c>` has the
 leaves of the `Matrix` of that shape.
 Only the Python standard library is used.
 """
@@ -1135,6 +1161,8 @@ class Translator:
             if nm in ('operator->', 'operator*') and len(n['inner']) == 2:      # iterator dereference
                 return self.resolve_lvalue(n['inner'][1], env)
             raise Untranslatable('operator call %s as an lvalue' % nm)
+        if k == 'ImplicitCastExpr' and n.get('castKind') == 'ArrayToPointerDecay' and n.get('inner'):
+            return self.resolve_lvalue(n['inner'][0], env)      # phase 5: the array itself (only as the base of a subscript)
         if k == 'ArraySubscriptExpr':
             r, p = self.resolve_lvalue(n['inner'][0], env)
             return r, p + [(self.const_int(n['inner'][1], env),)]
@@ -1240,6 +1268,8 @@ class Translator:
         self.store(env, root, path, sc)
         return sc
 
+    ARRAY_OF_EIGEN_RE = re.compile(r'^(?:Eigen::)?(Matrix|Vector)([2-4])([df])\s*\[(\d+)\]$')      # phase 5
+
     def shape_of(self, ctype):
         """leaf paths (with C++ scalar type) of a small aggregate type"""
         t = strip_cv(ctype)
@@ -1258,6 +1288,10 @@ class Translator:
         tf = self.transform_type(t)
         if tf is not None:      # phase 3: Eigen::Transform<T, 3, Affine> = the coefficients of its 4x4 matrix
             return [([(i, j)], tf) for i in range(4) for j in range(4)]
+        ma = self.ARRAY_OF_EIGEN_RE.match(t)
+        if ma:      # phase 5: `Eigen::Matrix3d a[N]`: element k is the path component (k,)
+            et = 'Eigen::Matrix<%s, %s, %s>' % ({'d': 'double', 'f': 'float'}[ma.group(3)], ma.group(2), ma.group(2) if ma.group(1) == 'Matrix' else '1')
+            return [([(kk,)] + p_, st_) for kk in range(int(ma.group(4))) for p_, st_ in self.shape_of(et)]
         rid, rec = self.find_record(t)
         if rec is not None:
             return self.record_shape(rec)
@@ -1272,7 +1306,9 @@ class Translator:
                 ft = type_of(c)
                 if re.match(r'^(?:std::)?(?:recursive_|shared_|timed_)?mutex$', strip_cv(ft)):
                     continue      # a mutex member holds no data of the sequential meaning (like the skipped std::lock_guard declarations)
-                if classify(ft) == 'agg':
+                if classify(ft) == 'agg' and vec_elem(ft) is not None and self.is_list(ft):
+                    out.append(([c['name']], ft))      # phase 5: a std::vector of small Eigen vectors / plain structs is ONE list leaf
+                elif classify(ft) == 'agg':
                     out += [([c['name']] + p, st) for p, st in self.shape_of(ft)]
                 else:
                     out.append(([c['name']], ft))
@@ -1400,6 +1436,8 @@ class Translator:
             return self.vec_read(n, env, pre)
         if k == 'CXXOperatorCallExpr' and self.is_dyn_elem(n):      # phase 3: `M(i, j)` / `v(i)` / `v[i]` of a dynamic Eigen matrix
             return self.dyn_read(n, env, pre)
+        if k == 'MemberExpr' and self.is_vec_elem_member(n):      # phase 5: `v[i].field` of a std::vector of a plain struct (read)
+            return self.vec_member_read(n, env, pre)
         if k == 'CXXMemberCallExpr' and self.list_method(n) is not None:
             return self.eval_list_call(n, env, pre)
         if k in ('CXXConstructExpr', 'CXXTemporaryObjectExpr') and classify(type_of(n)) == 'seq':
@@ -1526,6 +1564,8 @@ class Translator:
                 return self.vec_read(m, env, pre)
             if m.get('kind') == 'CXXOperatorCallExpr' and self.is_dyn_elem(m):      # phase 3
                 return self.dyn_read(m, env, pre)
+            if m.get('kind') == 'MemberExpr' and self.is_vec_elem_member(m):      # phase 5
+                return self.vec_member_read(m, env, pre)
             if m.get('kind') == 'UnaryOperator' and m.get('opcode') in ('++', '--') and not m.get('isPostfix'):      # phase 2: `--n == 0`
                 return self.eval(m, env, pre)
             if m.get('kind') == 'CallExpr':      # a function returning a reference to a scalar (std::min / std::max, ...)
@@ -2827,6 +2867,10 @@ class Translator:
             return self.list_get(m, env, pre)
         if k in ('DeclRefExpr', 'MemberExpr') and m.get('valueCategory') == 'lvalue' and self.is_list(type_of(m)):
             return self.read_lvalue_scalar(m, env)      # phase 3: a std::vector of Eigen vectors / of structs passed on as a whole: one leaf
+        if k == 'CXXMemberCallExpr' and m.get('valueCategory') == 'lvalue' and vec_elem(type_of(m)) is not None and self.is_list(type_of(m)) \
+                and self.getter_member(m) is not None:      # phase 5: `x.get()` with `const V & get() const { return points_; }`: that leaf
+            root5, path5 = self.resolve_lvalue(m, env)
+            return self.read_leaf(env, root5, path5, self.tyvar(env.frame, type_of(m)))
         r2 = self.eval_obj_phase2(m, k, ct, env, pre)
         if r2 is not None:
             return r2
@@ -2856,7 +2900,7 @@ class Translator:
         if k == 'ImplicitCastExpr' and m.get('castKind') == 'LValueToRValue':
             root, path = self.resolve_lvalue(m['inner'][0], env)
             return self.read_obj(env, root, path, ct)
-        if k == 'CallExpr' and 'Matrix<' in ct and (self.callee_ref(m).get('referencedDecl') or {}).get('name') in ('Identity', 'Zero', 'Ones') \
+        if k == 'CallExpr' and ('Matrix<' in ct or 'Eigen::Array<' in ct) and (self.callee_ref(m).get('referencedDecl') or {}).get('name') in ('Identity', 'Zero', 'Ones') \
                 and len(m['inner']) == 1:
             # Eigen::Matrix<T, R, C>::Identity() / Zero() / Ones() of a fixed size: literal coefficients
             nm = (self.callee_ref(m).get('referencedDecl') or {}).get('name')
@@ -2878,6 +2922,17 @@ class Translator:
             if nm == 'operator*' and len(m['inner']) == 3 and 'Product<' in ct:
                 return self.eigen_product(m['inner'][1], m['inner'][2], env, pre)
             raise Untranslatable('operator call %s on aggregates' % nm)
+        if k == 'InitListExpr' and self.ARRAY_OF_EIGEN_RE.match(strip_cv(ct)):      # phase 5: `const Eigen::Matrix3d a[3] = {A, B, C};`
+            a = m.get('inner', []) or []
+            if len(a) != int(self.ARRAY_OF_EIGEN_RE.match(strip_cv(ct)).group(4)):
+                raise Untranslatable('array initialiser with %d items' % len(a))
+            res = {}
+            for kk, x in enumerate(a):
+                o5 = self.eval_obj(x, env, pre)
+                if not isinstance(o5, dict) or not o5 or not all(isinstance(v_, Sc) for v_ in o5.values()):
+                    raise Untranslatable('array element without known coefficients')
+                res[(kk,)] = o5
+            return res
         if k == 'InitListExpr':
             shape = self.shape_of(ct)
             a = m.get('inner', []) or []
@@ -3177,6 +3232,9 @@ class Translator:
                 return self.cwise1(obj, fn, frame)
             if nm == 'transpose' and not args:
                 obj = self.eval_obj(base, env, pre)
+                if isinstance(obj, dict) and obj and all(isinstance(kk, tuple) and len(kk) == 1 for kk in obj) \
+                        and all(isinstance(v, Sc) for v in obj.values()):      # phase 5: a column vector: the 1 x n row vector
+                    return {(0, kk[0]): v for kk, v in obj.items()}
                 if not isinstance(obj, dict) or not obj or not all(isinstance(kk, tuple) and len(kk) == 2 for kk in obj):
                     raise Untranslatable('transpose() of an object that is not a matrix with known coefficients')
                 return {(kk[1], kk[0]): v for kk, v in obj.items()}
@@ -3304,6 +3362,11 @@ class Translator:
         root, path = self.resolve_lvalue(base, e2)
         keys, st = self.eigen_keys(type_of(base))
         bm = self.block_map(lhs, {kk: None for kk in keys}, e2)
+        if isinstance(val, dict) and 'm' in val and 'rows' in val and self.spec.get('dyn_sizes'):      # phase 5: a dynamic-size value
+            val = self.dynx_to_fixed(val, [sub for sub, _ in bm])
+        if isinstance(val, dict) and val and set(val.keys()) != set(sub for sub, _ in bm) and all(isinstance(kk, tuple) and len(kk) == 1 for kk in val) \
+                and set((kk[0], 0) for kk in val) == set(sub for sub, _ in bm):
+            val = {(kk[0], 0): v_ for kk, v_ in val.items()}      # phase 5: an n x 1 block assigned from a vector
         if not isinstance(val, dict) or set(val.keys()) != set(sub for sub, _ in bm):
             raise Untranslatable('block assignment from an object of another shape')
         obj = {bk: val[sub] for sub, bk in bm}
@@ -3395,6 +3458,8 @@ class Translator:
         if base is not None and self.is_list(bt):
             root, path = self.resolve_lvalue(base, env)
             lty = self.tyvar(frame, bt)
+            if lty[0] == 'L' and nm in ('capacity', 'reserve', 'resize') and len(args) == (0 if nm == 'capacity' else 1):
+                return self.tuple_list_alloc(nm, root, path, lty, args, env, pre)      # phase 5
             if lty[0] in ('L', 'T') and nm not in ('size', 'empty'):
                 return NotImplemented
             cur = self.read_leaf(env, root, path, lty)
@@ -3420,6 +3485,39 @@ class Translator:
             self.write(env, root, path, Sc(name, lty))
             return None
         return NotImplemented
+
+    def tuple_list_alloc(self, nm, root, path, lty, args, env, pre):
+        """phase 5: `capacity()`, `reserve(n)`, `resize(n)` of a std::vector of small fixed-size Eigen vectors (a list of coordinate tuples).
+        `capacity()` is the value of a HIDDEN integer leaf `<vector>_capacity` of the object (it is not a function of the contents; it is
+        not tracked across mutators: a read after `reserve` / `resize` in the same body is untranslatable); `reserve(n)` changes nothing
+        observable; `resize(n)` is `vecResize v n fill` with `fill` = the uninterpreted parameter `<vector>_resize_fill` (a
+        default-constructed element: indeterminate for plain Eigen vectors)"""
+        frame = env.frame
+        top = frame.top()
+        dirty = getattr(top, 'cap_dirty', None)
+        if dirty is None:
+            dirty = top.cap_dirty = set()
+        key = (root, tuple(path))
+        if nm == 'capacity':
+            if key in dirty or not path or not isinstance(path[-1], str):
+                raise Untranslatable('capacity() read after the vector was reallocated in the same function / of a non-member vector')
+            return self.read_leaf(env, root, list(path[:-1]) + [path[-1] + '_capacity'], 'i')
+        cnt = self.eval(args[0], env, pre)
+        if cnt.ty != 'i':
+            raise Untranslatable('%s() with a non-integer count' % nm)
+        dirty.add(key)
+        if nm == 'reserve':
+            return None
+        if pre is None:
+            raise Untranslatable('container mutation `resize` inside an expression')
+        cur = self.read_leaf(env, root, path, lty)
+        self.need_helper('vecResize')
+        ety = '(%s)' % tuple_type([lty[2]] * int(lty[1]))
+        fill = self.uninterp_param(env, lean_ident(path_name(self.root_name(frame, root), path) + '_resize_fill'), ety)
+        name = frame.fresh(path_name(self.root_name(frame, root), path))
+        pre.append(('let', name, 'vecResize %s %s %s' % (par(cur.t), par(cnt.t), fill)))
+        self.write(env, root, path, Sc(name, lty))
+        return None
 
     def zero_of(self, ty, frame):
         if ty in ('a', 'd'):
@@ -3533,6 +3631,21 @@ class Translator:
             return False
         return 2 <= len(sh) <= 8 and all(len(p_) == 1 and isinstance(p_[0], str) for p_, _ in sh) and \
             all(classify(st) in ('double', 'float', 'int', 'uint', 'bool') for _, st in sh)
+
+    def is_vec_elem_member(self, n):
+        """phase 5: `v[i].field`, v a std::vector of a plain struct of scalars (a list of tuples, read only)"""
+        n = strip_noop(n)
+        if n.get('kind') != 'MemberExpr' or n.get('isArrow') or not n.get('inner'):
+            return False
+        b = strip_noop(n['inner'][0])
+        return self.is_vec_elem(b) and self.is_struct_list(type_of(b['inner'][1]))
+
+    def vec_member_read(self, n, env, pre):
+        n = strip_noop(n)
+        d = self.vec_read(n['inner'][0], env, pre)
+        if not isinstance(d, dict) or n.get('name') not in d:
+            raise Untranslatable('member `%s` of a vector element' % n.get('name'))
+        return d[n.get('name')]
 
     def set_partial(self, frame):
         f = frame
@@ -3684,6 +3797,13 @@ class Translator:
             if nm == 'block' and mat:
                 sub = self.block_map(m, {kk: None for kk in bmap}, env)
                 return root, path, [(sk, bmap[bk]) for sk, bk in sub]
+            if nm in ('head', 'tail') and len([a_ for a_ in args if a_.get('kind') != 'CXXDefaultArgExpr']) == 1 and bmap and all(len(kk) == 1 for kk in bmap):
+                cnt = self.const_int([a_ for a_ in args if a_.get('kind') != 'CXXDefaultArgExpr'][0], env)      # phase 5: `head(n)` / `tail(n)`, n constant
+                size = len(bmap)
+                if cnt > size or cnt < 0:
+                    raise Untranslatable('%s(%d) outside the vector' % (nm, cnt))
+                lo = 0 if nm == 'head' else size - cnt
+                return root, path, [((i,), bmap[(lo + i,)]) for i in range(cnt)]
             if nm in ('head', 'tail') and not [a_ for a_ in args if a_.get('kind') != 'CXXDefaultArgExpr'] and bmap and all(len(kk) == 1 for kk in bmap):
                 cnt = len(self.outer_keys(type_of(m))[0])      # `head<N>()` / `tail<N>()`: N is read from the instantiated result type
                 size = len(bmap)
@@ -3807,6 +3927,22 @@ class Translator:
             return self.affine3_inverse(self.read_keys(base, self.AFFINE_KEYS, env, pre), frame, pre)
         if nm in ('matrix',) and not args:
             return None      # (generic: the whole 4x4 matrix)
+        if nm == 'rotation' and not args and 'rotation' in (self.spec.get('transform_oracles') or []):
+            # phase 5 (spec key `transform_oracles`): `T.rotation()` (Eigen: the rotation of the polar decomposition of the linear part, by an
+            # SVD) is an ORACLE: coefficient (i, j) = the uninterpreted function `Transform_rotation_i_j` of the 9 coefficients of `linear()`
+            # in row-major order; every call on the same value is the same term
+            if pre is None:
+                raise Untranslatable('Transform::rotation() inside a conditionally evaluated expression')
+            M = self.read_keys(base, [(i, j) for i in range(3) for j in range(3)], env, pre)
+            lin = [M[(i, j)] for i in range(3) for j in range(3)]
+            sty = lin[0].ty
+            fty = ' → '.join([TY_LEAN[sty]] * 10)
+            res = {}
+            for i in range(3):
+                for j in range(3):
+                    fn = self.uninterp_param(env, 'Transform_rotation_%d_%d' % (i, j), fty)
+                    res[(i, j)] = Sc('(%s %s)' % (fn, ' '.join(par(x.t) for x in lin)), sty)
+            return res
         raise Untranslatable('member function `%s` of an Eigen::Transform' % nm)
 
     def transform_apply(self, tn, vn, env, pre):
@@ -4186,6 +4322,8 @@ class Translator:
                 return self.dx_val(frame, nidx, sty, lambda idx: zero, sc_lit(Sc('0', 'i'), 0), sc_lit(Sc('0', 'i'), 0))
             if len(a) == 1 and DYNX_RE.search(type_of(a[0])):
                 return self.dynx_eval(a[0], env, pre)
+            if len(a) == 1 and self.is_eigen_type(type_of(a[0])) and dyn_info(ct) is not None:
+                return self.dynx_of_fixed(a[0], ct, env, pre)      # phase 5: `Matrix<T, -1, -1>(fixed-size expression)`
             raise Untranslatable('constructor call of %s with %d arguments' % (strip_cv(ct)[:80], len(a)))
         if k in ('DeclRefExpr', 'MemberExpr') and dyn_info(ct) is not None:
             root, path = self.resolve_lvalue(m, env)
@@ -4321,6 +4459,53 @@ class Translator:
             raise Untranslatable('member call `%s` on dynamic-size Eigen objects' % nm)
         raise Untranslatable('unsupported expression %s on dynamic-size Eigen objects' % k)
 
+    def dynx_of_fixed(self, a, ct, env, pre):
+        """phase 5: a dynamic-size matrix / vector constructed from a FIXED-size Eigen expression (`JacobiSVD<MatrixXd> svd(cov.block(0, 0, d,
+        d), …)` converts the block): sizes = those of the expression (integer literals), coefficient function = a chain of
+        `if ρ = i ∧ γ = j then x_i_j else …` over its coefficients in row-major order, zero elsewhere (outside the sizes the total function
+        is never meant to be read)"""
+        frame = env.frame
+        sty = self.dx_scalar_ty(ct, frame)
+        nidx = dyn_info(ct)[1]
+        obj = self.eval_obj(a, env, pre)
+        if not isinstance(obj, dict) or not obj or not all(isinstance(kk, tuple) and isinstance(v, Sc) and v.ty == sty for kk, v in obj.items()):
+            raise Untranslatable('dynamic-size matrix constructed from an object without known coefficients')
+        if not (all(len(kk) == 2 for kk in obj) or all(len(kk) == 1 for kk in obj)):
+            raise Untranslatable('dynamic-size matrix constructed from an object with mixed index shapes')
+        ks = sorted((kk if len(kk) == 2 else (kk[0], 0)) for kk in obj)
+        rows, cols = max(k_[0] for k_ in ks) + 1, max(k_[1] for k_ in ks) + 1
+        if len(ks) != rows * cols or (nidx == 1 and cols != 1):
+            raise Untranslatable('dynamic-size matrix constructed from an object of another shape')
+        get = (lambda i, j: obj[(i, j)]) if all(len(kk) == 2 for kk in obj) else (lambda i, j: obj[(i,)])
+        frame.need('NatCast', sty)
+        zero = '((0 : Nat) : %s)' % TY_LEAN[sty]
+
+        def fn(idx):
+            t = zero
+            for (i, j) in reversed(ks):
+                c = ('%s = %d ∧ %s = %d' % (idx[0], i, idx[1], j)) if nidx == 2 else ('%s = %d' % (idx[0], i))
+                t = '(if %s then %s else %s)' % (c, unpar(get(i, j).t), unpar(t))
+            return t
+        return self.dx_val(frame, nidx, sty, fn, sc_lit(Sc(str(rows), 'i'), rows), sc_lit(Sc(str(cols), 'i'), cols) if nidx == 2 else None)
+
+    def dynx_to_fixed(self, val, keys):
+        """phase 5: the coefficients `keys` (fixed-size index tuples) of a dynamic-size value that is assigned to a fixed-size target
+        (`H.block(0, 0, d, d) = v * u.transpose();`): Eigen asserts equal sizes in debug builds only — the sizes of the value are NOT
+        compared with the target's (under NDEBUG a mismatch is undefined behaviour): a trusted reading"""
+        nidx = self.dx_nidx(val)
+        res = {}
+        for kk in keys:
+            if len(kk) == nidx:
+                idx = [str(i) for i in kk]
+            elif len(kk) == 2 and nidx == 1 and kk[1] == 0:
+                idx = [str(kk[0])]
+            elif len(kk) == 1 and nidx == 2:
+                idx = [str(kk[0]), '0']
+            else:
+                raise Untranslatable('dynamic-size value assigned to a fixed-size target of another shape')
+            res[kk] = Sc(self.dx_at(val, idx), val['m'].ty[2])
+        return res
+
     def dynx_call(self, n, env, pre):
         """calls on dynamic-size Eigen objects with a scalar / no result: `rows() cols() size()`, `a.dot(b)`, and the statements
         `resize(…)`, `setConstant(x)`, `setZero()`, `setOnes()` on an lvalue. NotImplemented = not such a call."""
@@ -4348,6 +4533,17 @@ class Translator:
                 raise Untranslatable('dot() of dynamic-size matrices')
             frame.need('Mul', sty)
             return Sc(self.dx_sum(frame, sty, A['rows'].t, lambda kk: '(%s * %s)' % (self.dx_at(A, [kk]), self.dx_at(B, [kk]))), sty)
+        if nm == 'determinant' and not args:
+            # phase 5: Eigen computes it through a partially pivoted LU: an uninterpreted function `determinant` of the coefficients and sizes
+            A = self.dynx_eval(base, env, pre)
+            if self.dx_nidx(A) != 2 or pre is None:
+                raise Untranslatable('determinant() of a vector / inside a conditionally evaluated expression')
+            if not re.match(r"^[A-Za-z_][A-Za-z0-9_']*$", A['m'].t):
+                A = self.dx_bind(frame, pre, 'detArg', A)
+            lv = leaves(A)
+            fty = ' → '.join([TY_LEAN[sc.ty] for _, sc in lv] + [TY_LEAN[sty]])
+            fn = self.uninterp_param(env, 'determinant', fty)
+            return Sc('(%s %s)' % (fn, ' '.join(par(sc.t) for _, sc in lv)), sty)
         if nm in ('resize', 'setConstant', 'setZero', 'setOnes'):
             bn = strip_noop(base)
             if pre is None or bn.get('kind') not in ('MemberExpr', 'DeclRefExpr') or dyn_info(type_of(bn)) is None:
@@ -4839,6 +5035,11 @@ class Translator:
                 return self.exec_list_assign(strip_noop(s['inner'][1]), s['inner'][2], None, s, env.copy(), k)
             if nm == 'operator=' and self.is_vec_elem(s['inner'][1]) and classify(type_of(strip_noop(s['inner'][1])['inner'][1])) == 'agg':
                 return self.exec_vec_tuple_assign(s['inner'][1], s['inner'][2], env, k)      # phase 3: `v[i] = x;`, v a std::vector of Eigen vectors
+            lhs5 = strip_noop(s['inner'][1])
+            if nm == 'operator=' and lhs5.get('kind') == 'CXXMemberCallExpr' and self.callee_ref(lhs5).get('name') in ('array', 'matrix') \
+                    and len(lhs5['inner']) == 1 and self.callee_ref(lhs5).get('inner') and self.is_vec_elem(self.callee_ref(lhs5)['inner'][0]) \
+                    and classify(type_of(strip_noop(strip_noop(self.callee_ref(lhs5)['inner'][0])['inner'][1]))) == 'agg':
+                return self.exec_vec_tuple_assign(self.callee_ref(lhs5)['inner'][0], s['inner'][2], env, k)      # phase 5: `v[i].array() = x;`
             if nm == 'operator,' and 'CommaInitializer<' in type_of(s):      # phase 3: `target << a, b, c;`
                 return self.exec_comma_init(s, env, k)
             if nm == 'operator=' and self.is_eigen_view(s['inner'][1]):      # phase 3: `T.translation() = expr;`, `M.col(j) = expr;`
@@ -4857,8 +5058,29 @@ class Translator:
                 pre = []
                 e2 = env.copy()
                 op, cls = self.EIG_BIN['operator' + nm[len('operator')]]
+                if self.is_eigen_view(s['inner'][1]) and (nm in ('operator+=', 'operator-=') or classify(type_of(s['inner'][2])) != 'agg'):
+                    # phase 5: `M.block(i, j, R, C) += expr;`, `v.head(n) *= s;` (any writable view): the coefficients of the view are
+                    # combined one by one (`*=` / `/=` only with a scalar: a matrix on the right would be a matrix product)
+                    A, B = self.cwise_operands(s['inner'][1], s['inner'][2], e2, pre)
+                    if not isinstance(A, dict) or (not isinstance(B, dict) and nm in ('operator+=', 'operator-=')):
+                        raise Untranslatable('compound assignment to a view from a scalar')
+                    root, path, vm = self.eigen_view(s['inner'][1], e2)
+                    if isinstance(B, Sc):
+                        B = {kk: B for kk in A}
+                    if set(A.keys()) != set(sk for sk, _ in vm) and all(len(sk) == 2 and sk[1] == 0 for sk, _ in vm):
+                        vm = [((sk[0],), bk) for sk, bk in vm]      # an n x 1 block is a vector
+                    if set(A.keys()) != set(sk for sk, _ in vm):
+                        A = {sk: A[(sk[0], 0)] for sk, _ in vm} if all((sk[0], 0) in A for sk, _ in vm) else A
+                    if set(B.keys()) != set(A.keys()) and all(len(kk) == 1 for kk in B) and all(len(kk) == 2 and kk[1] == 0 for kk in A):
+                        B = {(kk[0], 0): v_ for kk, v_ in B.items()}
+                    if set(B.keys()) != set(A.keys()) and all(len(kk) == 1 for kk in A) and all(len(kk) == 2 and kk[1] == 0 for kk in B):
+                        B = {(kk[0],): v_ for kk, v_ in B.items()}
+                    wt = self.wrap_ctype(type_of(s['inner'][1]))
+                    obj = self.cwise2(A, B, lambda a, b: self.sc_arith(op, cls, a, b, e2.frame, wt), e2.frame)
+                    return self.wrap(pre, self.write_view(e2, root, path, [(bk, obj[sk]) for sk, bk in vm], k))
                 A, B = self.cwise_operands(s['inner'][1], s['inner'][2], e2, pre)
-                if 'Product<' in type_of(s['inner'][2]) or not isinstance(A, dict):
+                if ('Product<' in type_of(s['inner'][2]) and nm not in ('operator+=', 'operator-=')) or not isinstance(A, dict):
+                    # (phase 5: `A += B * C`, `A -= B * C` add / subtract the evaluated product coefficient by coefficient; `A *= B` is not coefficient-wise)
                     raise Untranslatable('operator call statement %s with a matrix product' % nm)
                 wt = self.wrap_ctype(type_of(s['inner'][1]))
                 obj = self.cwise2(A, B, lambda a, b: self.sc_arith(op, cls, a, b, e2.frame, wt), e2.frame)
@@ -4956,7 +5178,8 @@ class Translator:
                 raise Untranslatable('reference `%s` without initialiser' % name)
             tgt = strip_noop(init[0])
             if tgt.get('valueCategory') == 'lvalue' and tgt.get('kind') in ('DeclRefExpr', 'MemberExpr', 'CXXOperatorCallExpr', 'ArraySubscriptExpr', 'CXXMemberCallExpr') \
-                    and not (self.is_vec_elem(tgt) and re.match(r'^const\b', qt.strip())):      # (phase 2: `const T & x = v[i]` is bound by value)
+                    and not (self.is_vec_elem(tgt) and re.match(r'^const\b', qt.strip())) \
+                    and not (tgt.get('kind') == 'MemberExpr' and self.is_vec_elem_member(tgt) and re.match(r'^const\b', qt.strip())):      # (phase 2: `const T & x = v[i]` is bound by value; phase 5: `const T & x = v[i].field` too)
                 try:
                     root, path = self.resolve_lvalue(tgt, env)
                     env.vars[vid] = Alias(root, path)
@@ -5311,6 +5534,11 @@ class Translator:
                 tgt = n['inner'][0]
             elif kd == 'CXXOperatorCallExpr' and (self.callee_ref(n).get('referencedDecl') or {}).get('name') in ('operator=', 'operator+=', 'operator-=', 'operator*=', 'operator/='):
                 tgt = n['inner'][1]
+            if tgt is not None:      # phase 5: `v[i].array() = x` assigns `v[i]`
+                t5 = strip_noop(tgt)
+                if t5.get('kind') == 'CXXMemberCallExpr' and self.callee_ref(t5).get('name') in ('array', 'matrix') and len(t5['inner']) == 1 \
+                        and self.callee_ref(t5).get('inner') and self.is_vec_elem(self.callee_ref(t5)['inner'][0]):
+                    tgt = self.callee_ref(t5)['inner'][0]
             if tgt is not None and self.is_vec_elem(tgt):      # phase 2: `v[i] = x` assigns the vector `v`
                 tgt = strip_noop(tgt)['inner'][1]
             if tgt is not None and self.is_dyn_elem(tgt):      # phase 3: `M(i, j) = x` assigns the functional array `M` (one leaf)
